@@ -58,6 +58,23 @@ CHECKS = {
         design="4/C19", technique="Lean 4 proof (ladder invariant by induction over levels and sub-steps) + compiled-code differential check",
         note="Exact arithmetic: pow(10, log10(dt)) = dt is the hypothesis LastTargetExact (binary64 differs by ~1e-16 relative; "
              "comparison tolerance 1e-9). Real SUNDIALS/Boost replaced by /verif/shim; cuSPARSE Solve has no error handling and is not covered."),
+    "C14": dict(
+        text="Theorem run_inv / reachable_inv: for every history of add / add-many / remove (index, index list, instance, "
+             "instance list) / set-allowed / set-required the cached reactant and product sets are exactly those of the held "
+             "reactions, held reactions pass and skipped reactions fail the allowed filter; species_eq, source_sink_eq, "
+             "setAllowed_eq_construct (late allowed list = construction, no reaction lost). Tie: after every step of every "
+             "generated history the real Network's species, held/skipped reactions, sources and sinks must equal the model's; "
+             "oracle = recompute-from-scratch reference; `naunet extend` run on generated files.",
+        design="4/C14", technique="Lean 4 proof (invariant preserved by every operation, induction over histories) + step-wise differential check",
+        note="Species are abstract identity keys in the model (name parsing is C08); order of reactions after a late "
+             "allowed-species change is claimed only as a multiset; de-duplication is C15; reindex is exercised through extend."),
+    "C15": dict(
+        text="Theorems dup_iff_earlier_equal (an index is reported iff an earlier element is equivalent), dupIdx_sorted, "
+             "remove_dups_one_representative, findDup_fst, for every list and every comparison that is an equivalence relation "
+             "(key_isEquiv: all key-based modes are). F14_witness proves the default mode is not transitive once UNKNOWN-typed "
+             "reactions are mixed in. Tie: four modes on generated lists vs the model and vs an O(n^2) pairwise oracle.",
+        design="4/C15", technique="Lean 4 proof (accumulator invariant `Covers`) + differential check vs pairwise oracle",
+        note="Default mode with untyped (UNKNOWN) reactions is a known finding (F14): the theorem's IsEquiv hypothesis excludes it."),
 }
 
 NOT_YET = {}
